@@ -248,7 +248,7 @@ func run(c peng.Case) vt.Verdict {
 func TestProp(t *testing.T) {
 	vt.Main(t, vt.Spec[peng.Case]{
 		ID:           "C09",
-		Rule:         "rapid-generated workloads: 4-40 calls of all 20 kinds from 1-6 threads with barriers on 1-4 reachable servers, cancellations and deadlines at generated instants (1 us - 5 ms), thresholds up to the configuration size, correctable completion, slow quorum functions (up to 20 ms), slow/holding/early-releasing/failing handlers that always return, server streams that send up to 6 replies per node, GOMAXPROCS 1/2/4/default, in 1 of 4 cases a client send-size limit with requests too large to send, in 1 of 4 cases one or two injected failures of single stream writes (client stream interceptor), in 1 of 4 cases one or two cuts of the connections to a server that keeps listening, in 1 of 4 cases 1-3 calls (two-way with a deadline, or one-way) of methods of another registered service for which the servers have no handler, in half of the cases seeded jitter at the statement-level yield points of the instrumented runtime; in 1 of 4 cases a 15 ms dial timeout and probe handlers that take 25 ms; after the workload drains, an RPC with a fresh context to every node must return that node's genuine reply, and then a quorum call (sometimes also an async, correctable or per-node call) that needs every node must succeed (black-box probe; a failed probe is confirmed by two goroutine dumps 10 s apart); non-trivial (measured) = a stream was re-created after a cancelled send, or a stream call was abandoned with replies outstanding, or a slow quorum function, or a request too large to send, or an injected write failure that was reached, or a call of a method without a handler",
+		Rule:         "rapid-generated workloads: 4-40 calls of all 20 kinds from 1-6 threads with barriers on 1-4 reachable servers, cancellations and deadlines at generated instants (1 us - 5 ms), thresholds up to the configuration size, correctable completion, slow quorum functions (up to 20 ms), slow/holding/early-releasing/failing handlers that always return, server streams that send up to 6 replies per node, GOMAXPROCS 1/2/4/default, in 1 of 4 cases a client send-size limit with requests too large to send, in 1 of 4 cases one or two injected failures of single stream writes (client stream interceptor), in 1 of 4 cases one or two cuts of the connections to a server that keeps listening, in 1 of 4 cases 1-3 calls (two-way with a deadline, or one-way) of methods of another registered service for which the servers have no handler, in half of the cases seeded jitter at the statement-level yield points of the instrumented runtime; in 1 of 4 cases a 15 ms dial timeout and probe handlers that take 25 ms; after the workload drains, an RPC with a fresh context to every node must return that node's genuine reply, and then a quorum call (sometimes also an async, correctable or per-node call) that needs every node must succeed (black-box probe; a failed probe is confirmed by two goroutine dumps 10 s apart); non-trivial (measured) = a stream was re-created after a cancelled send, or a stream call was abandoned with replies outstanding, or a slow quorum function, or a request too large to send, or an injected write failure that was reached, or a call of a method without a handler; a second case shape (1 in 8): one goroutine makes 20-120 RPC / quorum calls in a row on 1-2 servers that answer at once, each call under a context of its own that is cancelled as soon as the call has returned (defer cancel()), under strong schedule jitter - nothing fails and nothing is abandoned, so every call must be answered (later-call-fails)",
 		Gen:          gen,
 		Run:          run,
 		TrackCurrent: true,
